@@ -300,9 +300,12 @@ func (parser *Parser) getIncludes(srcFile *SourceFile, includes []*Include, incP
 					loc:        inc.Node.Loc,
 				})
 			} else if iSrcFile := processedIncludes[absPath]; iSrcFile != nil {
-				iSrcFile.IncludedFrom = append(iSrcFile.IncludedFrom, &inc.Node.Loc)
 				if err := srcFile.checkIncludes(absPath, &inc.Node.Loc); err != nil {
 					errs = append(errs, err)
+				} else {
+					// Only record includes which do not close a cycle, so
+					// that following IncludedFrom always terminates.
+					iSrcFile.IncludedFrom = append(iSrcFile.IncludedFrom, &inc.Node.Loc)
 				}
 			} else {
 				iSrcFile = &SourceFile{
